@@ -132,9 +132,10 @@ def rule_b(ctx, rule='C16.b'):
     # the attribute the sender awaits: what _current_transport returns for the client
     ct = slots.RSocketClient.lookup('_current_transport')
     tattr = None
-    for n in walk_local(ct.node):
-        if isinstance(n, ast.Return) and isinstance(n.value, ast.Attribute):
-            tattr = n.value.attr
+    from ..astutil import returned_exprs
+    for v in returned_exprs(ct.node):
+        if isinstance(v, ast.Attribute):
+            tattr = v.attr
     if tattr is None:
         raise AnalysisError('%s: cannot identify the transport future of the client' % rule)
     seen = 0
@@ -404,7 +405,10 @@ def rule_d(ctx):
                 if isinstance(c, ast.Call) and isinstance(c.func, ast.Attribute) and c.func.attr == 'send_error':
                     sites.append(c)
     rep.require('C16.d', 'error replies in the receive loop', len(sites), 2)
-    ok = all(len(c.args) >= 1 and ast.unparse(c.args[0]) == 'frame.stream_id' for c in sites)
+    loopvars = {n.target.id for n in walk_local(rl.node) if isinstance(n, ast.AsyncFor) and
+                isinstance(n.target, ast.Name)}
+    ok = all(len(c.args) >= 1 and isinstance(c.args[0], ast.Attribute) and c.args[0].attr == 'stream_id' and
+             isinstance(c.args[0].value, ast.Name) and c.args[0].value.id in loopvars for c in sites)
     rep.add('C16.d', '_receiver_listen / error reply on the offending stream', rl, ok,
             'every error reply uses the stream id of the frame being handled (0 for SETUP/RESUME)' if ok else
             'an error reply does not use the stream id of the frame being handled')
